@@ -12,6 +12,7 @@ GenStep ==
   \/ CallInit /\ Rec(<<"A", "Init">>)
   \/ CallStart /\ Rec(<<"A", "Start">>)
   \/ CallLog /\ Rec(<<"A", "Log", posted + 1>>)
+  \/ CallLogSync /\ Rec(<<"A", "Log", posted + 1>>)
   \/ CallFini /\ (posted = NMsgs \/ Sometimes(6)) /\ Rec(<<"A", "Fini">>)
   \/ CtlEnable0 /\ Sometimes(5) /\ Rec(<<"A", "Enable", 0>>)
   \/ CtlEnable1 /\ (tstate # "enabled" \/ Sometimes(4)) /\ Rec(<<"A", "Enable", 1>>)
